@@ -115,6 +115,16 @@ PROPS["C11"] = {
     "assumptions": ["the step order produced by cli.make_pipeline_from_args is covered by the bounded stand-in only"],
 }
 
+PROPS["C10"] = {
+    "level": "other",
+    "text": "The modifier-assembling part of make_pipeline_from_args (and the generator helpers it calls, inlined) is executed "
+            "symbolically with a symbolic argparse namespace: for all option subsets the resulting list is sorted by the documented "
+            "rank and every item obeys the documented R1/R2 routing; the paired wrapper gives each modifier only its own mate.  "
+            "Bounded: option-order invariance and step-by-step composition on a command-line grid.",
+    "note": "Trusted: argparse semantics; modifier constructors abstract; parse_cutoffs a deterministic function of its string.",
+    "assumptions": ["at most three -u/-U and two --strip-suffix occurrences are modelled"],
+}
+
 _PENDING = "check not built yet in this revision (see DESIGN.md section 7 for the build order)"
 NOT_APPLICABLE = {
     "C12": "quantifies over fault sequences, crash points and schedules and contains a liveness clause; malformed-input detection "
